@@ -132,9 +132,12 @@ Override(argv, ignore) ==
                    ns |-> [i \in DOMAIN DestOrder |-> <<DestOrder[i], pr.ns[DestOrder[i]]>>]]
 
 \* the naming queries (no state change): enumeration, option table
-Describe ==
+\* mode: how the harness builds the schema before asking - "topdown", or "mounted": the nested
+\* schemas are built on their own first, their fields' reference paths are read, and only
+\* then are they attached to their parents.  The answers must not depend on it.
+Describe(mode) ==
     /\ UNCHANGED cfg
-    /\ ev' = [op |-> "Describe", out |-> "ok",
+    /\ ev' = [op |-> "Describe", mode |-> mode, out |-> "ok",
               paths |-> [i \in DOMAIN Enumerate(S, <<>>) |-> Dotted(Enumerate(S, <<>>)[i].path)],
               options |-> {Options[i].name : i \in DOMAIN Options},
               dests |-> [i \in DOMAIN Options |-> <<Options[i].name, Dotted(Options[i].dest)>>]]
@@ -142,7 +145,7 @@ Describe ==
 Next ==
     \/ \E pk \in DOMAIN SetCands : \E v \in SetCands[pk] : Tick /\ Set(pk, v)
     \/ \E a \in ArgPool, ig \in IgnoreLists : Tick /\ Override(a, ig)
-    \/ Tick /\ Describe
+    \/ \E mode \in {"topdown", "mounted"} : Tick /\ Describe(mode)
 
 ---------------------------------------------------------------------------
 (* C16 *)
